@@ -65,6 +65,14 @@ func verifStrEq(a, b string) bool
 func verifProgress(measure func() int, fns ...string)
 func verifAllocBound(n int)
 func verifLoopBound(fnSuffix string, iterations int)
+func verifJSONParse(b []byte) int
+func verifJSONValid(h int) bool
+func verifJSONHas(h int, path string) bool
+func verifJSONLen(h int, path string) int
+func verifJSONNum(h int, path string, v uint64, signed bool) bool
+func verifJSONFloat(h int, path string, bits uint64, width int) bool
+func verifJSONStr(h int, path string, s string) bool
+func verifJSONBool(h int, path string, b bool) bool
 `
 
 // harnessOverlay builds the overlay for a harness directory injected into pkgDir.
